@@ -3,9 +3,9 @@ C02 — Operator arithmetic is matrix arithmetic, whatever the grouping.
 
 Statements are over `ArithSem`: any semantics in which a composition denotes the composite, a sum the
 pointwise sum, the identity/scalar operators what their names say and a lazy inverse of an INVERTIBLE operand
-its inverse.  `LazyInvertible` is the hypothesis that the operand of a lazy-inverse object is invertible:
-finding F13 is exactly the case where it fails (the pseudo-inverse of a singular diagonal operator is a
-lazy-inverse object too).  `scalarArithSem` (Lemmas/ScalarModel.lean) shows the framework is inhabited by a
+its inverse.  `LazyInvertible` is the hypothesis that the operand of a lazy-inverse object is invertible (and
+that a `QURotationTransposeOperator` wraps a rotation, as its constructor guarantees): finding F13 is exactly
+the case where it fails (the pseudo-inverse of a singular diagonal operator is a lazy-inverse object too).  `scalarArithSem` (Lemmas/ScalarModel.lean) shows the framework is inhabited by a
 non-trivial model.
 -/
 import FuraxProofs.Lemmas.ArithSound
@@ -20,11 +20,14 @@ theorem dunders_pinned : ∀ r ∈ Generated.classTable, dunderOk r = true := by
 /-- the class tests used by the dunders and the rules agree with the real class hierarchy -/
 theorem hierarchy_pinned : ∀ r ∈ Generated.classTable, hierarchyOk r = true := by decide
 
-/-- `A @ B`: product of the maps and structures of the product, for every operand kind and every shortcut -/
+/-- `A @ B`: product of the maps and structures of the product, for every operand kind and every shortcut
+(`StructOK b`: the right operand is structurally well formed, which is where the framework's law `honest` —
+`B` maps its input space into its output space — applies) -/
 theorem matmul_den {V} (A : ArithSem V) (a b r : Op) (ha : ArithSem.WFtop a) (hb : ArithSem.WFtop b)
+    (hbs : StructOK b)
     (hai : A.LazyInvertible a) (hbi : A.LazyInvertible b) (h : pyMatmul a b = .ok r) :
     Op.inS a = Op.outS b ∧ Op.inS r = Op.inS b ∧ Op.outS r = Op.outS a ∧
-    ∀ x, A.mem (Op.inS b) x → A.den r x = A.den a (A.den b x) := A.pyMatmul_den a b r ha hb hai hbi h
+    ∀ x, A.mem (Op.inS b) x → A.den r x = A.den a (A.den b x) := A.pyMatmul_den a b r ha hb hbs hai hbi h
 
 /-- `A + B`: sum of the maps; the operand list is the concatenation of the summands of `A` and of `B`
 whatever the parenthesisation -/
@@ -35,22 +38,22 @@ theorem add_den {V} (A : ArithSem V) (a b r : Op) (ha : ArithSem.WFtop a) (hb : 
     ∀ x, A.den r x = A.add (A.den a x) (A.den b x) := A.pyAdd_den a b r ha hb h
 
 /-- `k * A` and `A * k` -/
-theorem rmul_den {V} (A : ArithSem V) (k : Rat) (a r : Op) (ha : ArithSem.WFtop a) (hai : A.LazyInvertible a)
-    (h : pyRmul k a = .ok r) :
+theorem rmul_den {V} (A : ArithSem V) (k : Rat) (a r : Op) (ha : ArithSem.WFtop a) (has : StructOK a)
+    (hai : A.LazyInvertible a) (h : pyRmul k a = .ok r) :
     Op.inS r = Op.inS a ∧ Op.outS r = Op.outS a ∧
-    ∀ x, A.mem (Op.inS a) x → A.den r x = A.smul k (A.den a x) := A.pyRmul_den k a r ha hai h
+    ∀ x, A.mem (Op.inS a) x → A.den r x = A.smul k (A.den a x) := A.pyRmul_den k a r ha has hai h
 
 /-- `A / k` -/
-theorem truediv_den {V} (A : ArithSem V) (k : Rat) (a r : Op) (ha : ArithSem.WFtop a) (hai : A.LazyInvertible a)
-    (h : pyTruediv a k = .ok r) :
+theorem truediv_den {V} (A : ArithSem V) (k : Rat) (a r : Op) (ha : ArithSem.WFtop a) (has : StructOK a)
+    (hai : A.LazyInvertible a) (h : pyTruediv a k = .ok r) :
     k ≠ 0 ∧ Op.inS r = Op.inS a ∧ Op.outS r = Op.outS a ∧
-    ∀ x, A.mem (Op.inS a) x → A.den r x = A.smul (1 / k) (A.den a x) := A.pyTruediv_den k a r ha hai h
+    ∀ x, A.mem (Op.inS a) x → A.den r x = A.smul (1 / k) (A.den a x) := A.pyTruediv_den k a r ha has hai h
 
 /-- `-A` (for `A` not itself a sum; sums are negated summand by summand, checked differentially) -/
-theorem neg_den_partial {V} (A : ArithSem V) (a r : Op) (ha : ArithSem.WFtop a) (hai : A.LazyInvertible a)
-    (hns : a.isAdd = false) (h : pyNeg a = .ok r) :
+theorem neg_den_partial {V} (A : ArithSem V) (a r : Op) (ha : ArithSem.WFtop a) (has : StructOK a)
+    (hai : A.LazyInvertible a) (hns : a.isAdd = false) (h : pyNeg a = .ok r) :
     Op.inS r = Op.inS a ∧ Op.outS r = Op.outS a ∧
-    ∀ x, A.mem (Op.inS a) x → A.den r x = A.smul (-1) (A.den a x) := A.pyNeg_den a r ha hai hns h
+    ∀ x, A.mem (Op.inS a) x → A.den r x = A.smul (-1) (A.den a x) := A.pyNeg_den a r ha has hai hns h
 
 /-- `+A` is `A` -/
 theorem pos_den (a : Op) : pyPos a = a := rfl
